@@ -42,7 +42,7 @@ def tr_params(p, kind, N):
 
 def run(c):
     N = c["N"]
-    psf = asym_psf(c["psf_seed"])
+    psf = asym_psf(c["psf_seed"], P=c.get("P", 25))
     if c["renderer"] == "hybrid8":       # the hybrid renderer with 8 of its 15 components in real space
         R = lambda shape, P: REND["hybrid"](shape, P, num_pixel_render=8)      # noqa: E731
     else:
